@@ -158,7 +158,7 @@ def run(ctx):
                 for i, st in enumerate(sched.stmts(fb[0])):
                     r = st["r"]
                     if r["k"] == "agg" and r.get("def") == fut.path:
-                        caps = [ctx.leaves(sched.expr_operand(o)) for o in r["ops"]]
+                        caps = [ctx.leaves(sched.expr_operand(o, 0, fb[0])) for o in r["ops"]]
                 okd = okd and any(has_leaf(c, "call:" + D + "random_indexes") for c in caps)
                 ctx.check(okd, "C33.sched.same-indexes", sched.path, "recorded CIDs and requested coordinates derive from the same random_indexes(square_width, max_samples_needed) result", key="C33.sched.same-indexes")
                 ctx.check(has_all(ctx.leaves(call_expr(sched, ri[0])), ["call:*ExtendedHeader::square_width", "self.max_samples_needed"]), "C33.sched.index-args", sched.path, "random_indexes(header.square_width(), self.max_samples_needed)", key="C33.sched.index-args")
